@@ -77,7 +77,7 @@ use serde::{Deserialize, Serialize};
 use serde_json::{json, Value};
 use std::collections::BTreeSet;
 use std::panic::{catch_unwind, AssertUnwindSafe};
-use std::sync::Arc;
+use lightning_signer::prelude::Arc;
 use txoo::filter::BlockSpendFilter;
 use txoo::proof::{ProofType, TxoProof};
 use txoo::spv::SpvProof;
